@@ -40,7 +40,11 @@ DOCS = [None, None, {"description": ["plain text"], "examples": []},
         {"description": ["uses `code` and <b>bold</b> & more"], "examples": ["`x = 1`", "a < b"]},
         {"description": ["unbalanced ` tick", "two `a` and `b`"], "examples": ['say "hi"', "it's"]},
         {"description": [SENT[0]], "examples": [SENT[0], "``", "`<i>`"]},
-        {"description": [], "examples": []}, {"description": ["</p></div>"], "examples": ["<p>"]}]
+        {"description": [], "examples": []}, {"description": ["</p></div>"], "examples": ["<p>"]},
+        {"description": ["see `https://example.org/spec` for details", "http://a.b/c?x=1&y=2 and `http://x.y`."],
+         "examples": ["`https://e.org/`", "https://e.org/<b>", "www.x.org `ftp://h/p`"]},
+        {"description": ["**bold** _emph_ [text](http://u.v/w) # heading", "mail me@x.org &amp; &lt;tag&gt; &#60;"],
+         "examples": ["1 < 2 > 0", "`a`b`c`", "```fenced```", "\\`escaped\\`", "line one\nline two", "tab\there"]}]
 TYPES = ["int", "float", "str", "list", "dict", "bool"]
 
 
@@ -453,6 +457,30 @@ def run(case, ctx):
             # back-tick pairs become balanced <code>
             if out.count("<code>") != out.count("</code>"):
                 ctx.violate("C20/html:unbalanced", "<code> tags unbalanced")
+    # history: the owner edits the schema (same number of rules) after trees were produced; the next tree shows the edit
+    ins = sorted(inside.items(), key=lambda kv: repr(kv[0]))
+    if ins:
+        i1, (r1, o1) = ins[0]
+        i2, (r2, o2) = ins[-1]
+        o1.doc = {"description": ["EDITED `doc` <mark>"], "examples": ["edited example"]}
+        if o2 is not o1:
+            okn, new = call(valida.Rule, o2.path, o2.condition, None, {"description": ["REPLACED rule"], "examples": []})
+            if okn:
+                schema.rules[[id(x) for x in schema.rules].index(id(o2))] = new
+                o2 = new
+        for nst in (False, True):
+            ok, t3 = call(schema.to_tree, nested=nst, **kw)
+            ctx.count("history:to_tree-after-edit")
+            if not ok:
+                ctx.violate(f"C20/raise-after-edit:{t3.type}", f"to_tree after an edit of the schema raised {t3!r}")
+                continue
+            fl3 = flatten(t3) if nst else t3
+            for ii, oo in ((i1, o1), (i2, o2)):
+                nn = [n for n in fl3 if tuple(n["path_str"]) == rel(ii)]
+                if len(nn) != 1 or nn[0].get("doc") != oo.doc:
+                    ctx.violate("C20/stale-after-edit", f"after a rule's doc was re-assigned / the rule was replaced, to_tree(nested={nst}) shows "
+                                f"{[n.get('doc') for n in nn]!r} for it, the rule has {oo.doc!r}")
+                    break
     for name, detail in mon.CONTRACTS.take():
         ctx.violate(f"C20/contract:{name}", detail)
     ctx.count("schemas")
